@@ -59,7 +59,7 @@ IntsAgree ==
 
 (* --------------------------------- laws --------------------------------- *)
 Mags == IF N = 0
-        THEN { Zero, One, FromInt(9999), FromInt(10000), Sub(P2_63, One), Sub(Pow10(38), One), P2_255 }
+        THEN { Zero, One, FromInt(10000), Sub(P2_63, One), Sub(Pow10(38), One), P2_255 }
         ELSE { Zero, One, FromInt(2), FromInt(9999), FromInt(10000), FromInt(10001), FromInt(99999999),
                FromInt(100000000), P2_31, P2_32, Sub(P2_63, One), P2_63, P2_64, P2_127, Sub(P2_128, One),
                Sub(Pow10(38), One), Pow10(38), P2_255, Sub(P2_256, One), Pow10(76) }
@@ -104,7 +104,7 @@ Laws ==
                   /\ BRowErr(op, w, sg, x, y) = (r # e))
 
 (* ---------------------------------- w8 ---------------------------------- *)
-W8Xs == IF N = 0 THEN {-128, -127, -1, 0, 1, 3, 100, 127, 128, 255} ELSE -128..255
+W8Xs == IF N = 0 THEN {-128, -1, 0, 3, 127, 128, 255} ELSE -128..255
 W8Init == part = "w8" /\ x \in W8Xs /\ y \in -128..255 /\ z = 0
 NatOps == {"add", "sub", "mul", "neg", "add_w", "sub_w", "mul_w", "neg_w", "div", "rem", "div_c",
            "rem_c", "div_w", "rem_w"}
